@@ -229,6 +229,32 @@ theorem decodeHeader_object_ne_nil (s : Sch) (ex : Bool) (raw : String) (c : Dec
     (hc : c ≠ .nil) : decodeHeader s ex raw c ≠ .nil := by
   simpa [decodeHeader, h] using decodeObject_ne_nil s ex raw c hc
 
+/-- **Integers round-trip.** The decimal text of every 64-bit integer (strconv.FormatInt) is read back as that
+integer by the model of strconv.ParseInt. -/
+theorem parseInt64_showInt (n : Int) (h : -9223372036854775808 ≤ n ∧ n ≤ 9223372036854775807) :
+    parseInt64 (showInt n) = some n := by
+  cases n with
+  | ofNat k =>
+    have : k ≤ 9223372036854775807 := by have := h.2; simp only [Int.ofNat_eq_natCast] at this; omega
+    exact parseInt64_showNat k this
+  | negSucc k =>
+    have hk : k + 1 ≤ 9223372036854775808 := by have := h.1; omega
+    have := parseInt64_neg_showNat (k + 1) hk
+    simpa [showInt, Int.negSucc_eq] using this
+
+/-- An integer-typed header carrying the decimal text of a 64-bit integer decodes to that integer. -/
+theorem decodeHeader_integer_roundtrip (s : Sch) (ex : Bool) (c : Dec) (n : Int) (ht : s.core.ty = .integer)
+    (h : -9223372036854775808 ≤ n ∧ n ≤ 9223372036854775807) :
+    decodeHeader s ex (String.ofList (showInt n)) c = .val (.num n) := by
+  have hne : String.ofList (showInt n) ≠ "" := by
+    intro he
+    have := congrArg String.toList he
+    simp only [String.toList_ofList] at this
+    have hp := parseInt64_showInt n h
+    rw [this] at hp
+    simp [parseInt64, splitSign] at hp
+  simp [decodeHeader, parsePrim, ht, hne, String.toList_ofList, parseInt64_showInt n h]
+
 def intHdrSchema : Sch := .mk { ty := .integer } .nil .none .none
 def arrHdrSchema (it : OSch) : Sch := .mk { ty := .array } .nil .none it
 
